@@ -560,6 +560,20 @@ async fn run_scenario(line: &[&str]) -> String {
                 let adv = w.adv.get_mut(&i).unwrap();
                 adv.dial(j, port, &sni).await
             }
+            // advop <i> <j> <op>: hostile stream-level behaviour of adversary i towards node j
+            "advop" => {
+                let (i, j): (usize, usize) = (t[1].parse().unwrap(), t[2].parse().unwrap());
+                let adv = w.adv.get_mut(&i).unwrap();
+                let mut held = std::mem::take(&mut adv.held);
+                let r = adv.hostile(j, t[3], &mut held).await;
+                adv.held = held;
+                r
+            }
+            "advopen" => {
+                let (i, j): (usize, usize) = (t[1].parse().unwrap(), t[2].parse().unwrap());
+                format!("{}", w.adv[&i].conn_open(j) as u8)
+            }
+            // encreq <route hex> <size> [hdr-size]: bytes of a well-formed request (for hostile mutations)
             "now" => format!("{}", w.start.elapsed().as_micros()),
             "trace" => {
                 // trace lines since the last call, peer ids rewritten to node indices, ports kept
